@@ -32,12 +32,16 @@ pub struct Noise {
     pub dummy_cnt: u8,
     /// up to this many marks allocated by "somebody else" at each yield of this task
     pub yield_marks: u8,
+    /// heap blocks of assorted sizes allocated on the worker first, every other one freed again
+    /// (what else lives in the host's heap; shifts which addresses the task's allocations get)
+    #[serde(default)]
+    pub heap: u8,
     pub seed: u64,
 }
 
 impl Noise {
     pub fn is_zero(&self) -> bool {
-        self.marks_before == 0 && self.pad_files == 0 && self.atoms == 0 && self.dummy_cnt == 0 && self.yield_marks == 0
+        self.marks_before == 0 && self.pad_files == 0 && self.atoms == 0 && self.dummy_cnt == 0 && self.yield_marks == 0 && self.heap == 0
     }
 }
 
@@ -95,6 +99,26 @@ pub fn run_file(env: Env<'_>, src: &str, ts: bool, opts: Options, noise: &Noise)
     }
     for _ in 0..noise.dummy_cnt {
         let _ = Span::dummy_with_cmt();
+    }
+    if noise.heap > 0 {
+        seams::NOISE_HEAP.with(|h| {
+            let mut h = h.borrow_mut();
+            let mut x = noise.seed.wrapping_mul(0x9E37_79B9_7F4A_7C15) | 1;
+            let mut tmp: Vec<Vec<u8>> = vec![];
+            for i in 0..noise.heap as usize * 4 {
+                x ^= x << 13;
+                x ^= x >> 7;
+                x ^= x << 17;
+                let size = [16usize, 24, 32, 48, 64, 96, 128, 256, 512, 1024, 4096][(x % 11) as usize];
+                let b = vec![0u8; size];
+                if i % 2 == 0 {
+                    h.push(b);
+                } else {
+                    tmp.push(b);
+                }
+            }
+            drop(tmp);
+        });
     }
 
     let diags = Arc::new(Mutex::new(vec![]));
